@@ -19,6 +19,7 @@ type Profile struct {
 	Opt       Options
 	W         Weights
 	JointBias bool // prefer explicit joint changes that swap voters for non-voters (disjoint majorities)
+	Simple    bool // only simple changes: one voter added or removed per change, never joint, no learners (the scope of EtcdRaft.tla with ConfChange = TRUE)
 	HoldPct   int  // per cent of node events that leave their Ready outstanding (Step between Ready and Advance, as node.run does)
 }
 
@@ -36,6 +37,10 @@ func profiles(nodes int) []Profile {
 	specw.Conf, specw.Compact, specw.Partition, specw.Drop = 0, 0, 0, 14
 	specpv := specw // two-phase elections need about twice the campaigns to change leaders as often
 	specpv.Campaign = 6
+	specconf := specw // simple membership changes inside the specification: more proposals so that changes commit and apply
+	specconf.Conf, specconf.Propose, specconf.Crash, specconf.Restart = 5, 8, 3, 8
+	specconfpv := specconf
+	specconfpv.Campaign = 6
 	windoww := noconf
 	windoww.Propose, windoww.Campaign, windoww.Drop, windoww.Compact = 22, 5, 9, 1
 	if nodes == -1 { // profiles inside the scope of EtcdRaft.tla (trace validation, B2)
@@ -45,6 +50,10 @@ func profiles(nodes int) []Profile {
 			// PreVote without CheckQuorum: inside EtcdRaft.tla with PreVote = TRUE (TraceEtcdRaft_prevote*.cfg)
 			{Name: "n3-spec-prevote", Opt: Options{N: 3, Voters: three, PreVote: true}, W: specpv},
 			{Name: "n3-spec-prevote-one", Opt: Options{N: 3, Voters: three, PreVote: true, MaxEnts: 1}, W: specpv},
+			// simple membership changes (ConfChange = TRUE: TraceEtcdRaft_conf.cfg / _conf12_prevote_one.cfg): three voters that
+			// shrink and grow again; two voters and an outsider that joins, PreVote, one entry per MsgApp
+			{Name: "n3-spec-conf", Opt: Options{N: 3, Voters: three}, W: specconf, Simple: true},
+			{Name: "n3-spec-conf12-prevote-one", Opt: Options{N: 3, Voters: []uint64{1, 2}, PreVote: true, MaxEnts: 1}, W: specconfpv, Simple: true},
 		}
 	}
 	ps := []Profile{
@@ -114,8 +123,31 @@ func pick(r *rand.Rand, w []int) int {
 }
 
 // genConf builds a random, applicable configuration change from the leader's current configuration.
-func genConf(r *rand.Rand, n *Node, total int, jointBias bool) *CCD {
+func genConf(r *rand.Rand, n *Node, total int, jointBias bool, simple bool) *CCD {
 	st := n.rn.Status()
+	if simple {
+		// one voter added or removed: raftpb.ConfChange, or a ConfChangeV2 with that single change and the automatic
+		// transition (which is then a simple one). Mostly changes that do something in the leader's current
+		// configuration, sometimes one that does not (adding a voter, removing a stranger); never the last voter.
+		cur := st.Config.Voters[0]
+		for try := 0; try < 20; try++ {
+			id := uint64(1 + r.Intn(total))
+			_, in := cur[id]
+			add := r.Intn(2) == 0
+			if add == in && r.Intn(5) > 0 {
+				continue
+			}
+			if !add && in && len(cur) == 1 {
+				continue
+			}
+			t := int(pb.ConfChangeAddNode)
+			if !add {
+				t = int(pb.ConfChangeRemoveNode)
+			}
+			return &CCD{V2: r.Intn(3) == 0, Trans: int(pb.ConfChangeTransitionAuto), Ops: [][]int{{t, int(id)}}}
+		}
+		return nil
+	}
 	joint := len(st.Config.Voters[1]) > 0
 	if joint {
 		if r.Intn(4) > 0 && !(jointBias && r.Intn(3) > 0) {
@@ -270,7 +302,7 @@ func (c *Cluster) RandomRun(r *rand.Rand, p Profile, events int, payload *int) {
 			c.Do(Event{Ev: "propose", Node: int(ld[r.Intn(len(ld))].id), P: *payload, Hold: hold})
 		case 4:
 			n := ld[r.Intn(len(ld))]
-			if cc := genConf(r, n, len(c.nodes), p.JointBias); cc != nil {
+			if cc := genConf(r, n, len(c.nodes), p.JointBias, p.Simple); cc != nil {
 				*payload++
 				c.Do(Event{Ev: "confchange", Node: int(n.id), P: *payload, CC: cc, Hold: hold})
 			}
